@@ -46,6 +46,9 @@ pub struct World {
     pub ready: HashMap<u64, VecDeque<Ready>>,
     pub next_uni_id: u64,
     pub next_bidi_id: u64,
+    /// events that reach an incoming stream only after the test has put them here (consulted when the stream's own
+    /// script is exhausted): lets a scenario deliver bytes AFTER a given API call has returned
+    pub late: HashMap<u64, VecDeque<RecvEvent>>,
     /// results of successive poll_open_bidi calls (default when exhausted: Ok)
     pub open_bidi: VecDeque<Ready>,
     /// receive scripts for successive locally opened bidirectional streams (default: nothing arrives)
@@ -89,6 +92,13 @@ pub struct MockRecv {
 impl quic::RecvStream for MockRecv {
     type Buf = Bytes;
     fn poll_data(&mut self, _cx: &mut Context<'_>) -> Poll<Result<Option<Bytes>, StreamErrorIncoming>> {
+        if self.events.is_empty() {
+            if let Some(q) = self.world.lock().unwrap().late.get_mut(&self.id) {
+                if let Some(ev) = q.pop_front() {
+                    self.events.push_back(ev);
+                }
+            }
+        }
         match self.events.pop_front() {
             None | Some(RecvEvent::Pending) => Poll::Pending,
             Some(RecvEvent::Data(d)) => Poll::Ready(Ok(Some(Bytes::from(d)))),
